@@ -1,4 +1,4 @@
-//go:build verif && (all || c16 || c17 || c39)
+//go:build verif && (all || c16 || c17 || c18 || c39)
 
 package peer
 
